@@ -263,7 +263,7 @@ func execStmt(h *Handle, idx int, st Stmt, cfg Config) (res StmtRes) {
 	}
 	// a drain needs at most one poll per stored pair (plus a few): scale the cap with the store
 	pollCap := maxPolls
-	if n := len(h.core.snapshot()); 3*n+100 > pollCap {
+	if n := h.core.snapshot().n; 3*n+100 > pollCap {
 		pollCap = 3*n + 100
 	}
 	nErr := 0
